@@ -108,10 +108,10 @@ func c20ParseOp(op string) (*c20Case, string) {
 // ---------------------------------------------------------------- running the real code
 
 type c20Result struct {
-	nodes    []Node
-	err      error
-	panicked interface{}
-	timeout  bool   // gave up waiting: deadline or memory cap
+	nodes     []Node
+	err       error
+	panicked  interface{}
+	timeout   bool   // gave up waiting: deadline or memory cap
 	exhausted string // which bound, for the report
 }
 
@@ -1030,7 +1030,7 @@ func c20GenSameLine(r *vh.Rng) (*c20Case, string) {
 		n = 400 + r.Intn(400)
 	}
 	if vh.Thorough() && r.Chance(2) {
-		n = 1000 + r.Intn(3000) // recursion depth of the parser grows with the number of lines
+		n = 1000 + r.Intn(1000) // recursion depth of the parser grows with the number of lines
 	}
 	decls := []string{"$(m1) = v }", "(sa) }", "$(m2) = v w }", "$(mm) = \"a b\" }", "$(m1) = $(m2) }", "(sb) }"}
 	var b strings.Builder
